@@ -48,6 +48,9 @@ class Contract:
         self.extra = ""        # raw text placed inside an impl / trait body
         self.attrs = []        # extra verus attributes
         self.sig_override = None
+        self.sig_expect = None
+        self.rewrites = []     # (name, regex, replacement): function-specific anchored rewrites, each must match exactly once
+        self.closures = {}     # ordinal -> (expected param text, [header line, prelude lines...])
         self.used = False
         self.mode = None       # 'spec-const' etc.
         self.ensures_false_ok = True
@@ -122,7 +125,7 @@ def parse_sidecar(path, relsrc):
             if s:
                 raise ExtractError(f"{path}:{i}: text outside a section: {s!r}")
             continue
-        m = re.match(r"(ret|props|external_body|attr|sig|mode):\s*(.*)$", s)
+        m = re.match(r"(ret|props|external_body|attr|sig-expect|sig|mode):\s*(.*)$", s)
         if m and buf is None or (m and not line.startswith("    ")):
             flush()
             section = None
@@ -137,6 +140,8 @@ def parse_sidecar(path, relsrc):
                 cur.attrs.append(v)
             elif k == "sig":
                 cur.sig_override = v
+            elif k == "sig-expect":
+                cur.sig_expect = v
             elif k == "mode":
                 cur.mode = v
             continue
@@ -149,6 +154,20 @@ def parse_sidecar(path, relsrc):
         if m:
             flush()
             section = (m.group(2), int(m.group(1)))
+            continue
+        m = re.match(r"rewrite\s+(\w+):\s*/(.*)/\s*=>\s*(.*)$", s)
+        if m and cur is not None:
+            flush()
+            section = None
+            cur.rewrites.append((m.group(1), m.group(2), m.group(3)))
+            continue
+        m = re.match(r"closure\s+(\d+)\s+expect\s+(.*?)\s*>>>\s*$", s)
+        if m:
+            flush()
+            section = None
+            tgt = []
+            raw_target = tgt
+            cur.closures[int(m.group(1))] = (m.group(2), tgt)
             continue
         m = re.match(r"(extra|hint-before|hint-after)\b\s*(.*?)\s*>>>\s*$", s)
         if m:
@@ -443,6 +462,31 @@ class Gen:
             bs = eval('b"' + mb.group(1) + '"')
             val2 = "&[" + ", ".join(f"{b}u8" for b in bs) + "]"
             self.count("R1_bytestring_to_array")
+        ms = re.fullmatch(r'"((?:[^"\\]|\\.)*)"', val)
+        if ms and ty2.replace(" ", "") == "&'staticstr":
+            # R1 (str): the byte value of the literal is computed here and handed to Verus as an
+            # assumed ensures (Verus cannot evaluate spec_bytes of a literal)
+            bs = eval('"' + ms.group(1) + '"').encode("utf-8")
+            for a in attrs:
+                self.emit(ind + a)
+            self.emit(f"{ind}#[verifier::external_body]")
+            self.emit(f"{ind}{vis}exec const {name}: {ty2}", info)
+            self.emit(f"{ind}    ensures sb({name}) =~= seq![" + ", ".join(f"{b}u8" for b in bs) + "]", {"generated": "R1 str const", "src": relsrc})
+            self.emit(f"{ind}{{ {val2} }}", info)
+            self.count("R1_str_const_bytes")
+            self.items.append({"src": relsrc, "item": key, "line": it.line})
+            return
+        mc = re.fullmatch(r"'((?:[^'\\]|\\.)*)'", val)
+        if mc and ty2.strip() == "char":
+            ch = eval("'" + mc.group(1) + "'")
+            for a in attrs:
+                self.emit(ind + a)
+            self.emit(f"{ind}{vis}exec const {name}: char", info)
+            self.emit(f"{ind}    ensures {name} as u32 == {ord(ch)}u32", {"generated": "R1 char const", "src": relsrc})
+            self.emit(f"{ind}{{ {val2} }}", info)
+            self.count("R1_char_const")
+            self.items.append({"src": relsrc, "item": key, "line": it.line})
+            return
         for a in attrs:
             self.emit(ind + a)
         if c is not None and c.clauses:
@@ -527,6 +571,16 @@ class Gen:
                 if not ret_part.startswith("->"):
                     raise ExtractError(f"{relsrc}:{it.line}: cannot parse signature tail {ret_part!r}")
                 ret = ret_part[2:].strip()
+        if c.sig_override is not None:
+            # R13b: the side-car replaces the signature (monomorphisation of a private generic at
+            # its only instantiation); the real signature must be exactly the expected one
+            real = norm(it.text(it.attr_hi, sig_end)).replace(",)", ")")
+            if c.sig_expect is None or norm(c.sig_expect).replace(",)", ")") != real:
+                raise ExtractError(f"{relsrc}: {key}: signature changed (anchor lost): {real}")
+            m2 = re.match(r"(?s)(.*?)\((.*)\)\s*(?:->\s*(.*))?$", c.sig_override.strip())
+            pre, params, ret = m2.group(1), m2.group(2), (m2.group(3) or "")
+            where = ""
+            self.count("R13_signature_monomorphised")
         mut_self = False
         if re.match(r"\s*mut\s+self\b", params):
             params = re.sub(r"^\s*mut\s+self\b", "self", params, count=1)
@@ -801,8 +855,79 @@ class Gen:
 
     def apply_regex_rewrites(self, body, relsrc, key, c):
         for name, rx, rep in REGEX_REWRITES:
-            body, n = re.subn(rx, rep, body)
+            def _sub(m, rep=rep):
+                out = m.expand(rep)
+                return out + "\n" * m.group(0).count("\n")   # keep the line structure
+            body, n = re.subn(rx, _sub, body)
             self.count(name, n)
+        for name, rx, rep in c.rewrites:
+            body, n = re.subn(rx, lambda m, rep=rep: m.expand(rep) + "\n" * m.group(0).count("\n"), body)
+            if n != 1:
+                raise ExtractError(f"{relsrc}: {key}: function-specific rewrite {name} matched {n} times (anchor lost)")
+            self.count(name)
+        body = self.annotate_closures(body, relsrc, key, c)
+        return body
+
+    def annotate_closures(self, body, relsrc, key, c):
+        """R14: closures get an explicit specification so that callers of map_err / filter /
+        position can reason about them; the closure BODY stays the real text and is verified
+        against that specification.
+          * `|x| Type::Variant(..)`  ->  `|x| -> (ret__: Type) ensures ret__ == Type::Variant(..) { Type::Variant(..) }`
+          * other closures: header supplied by the side-car (`closure N expect <params>`)"""
+        toks = lex(body)
+        sig = [i for i, t in enumerate(toks) if t.kind not in ("ws", "comment", "doc")]
+        edits = []
+        ordinal = 0
+        p = 0
+        n = len(sig)
+        while p < n:
+            t = toks[sig[p]]
+            prev = toks[sig[p - 1]] if p > 0 else None
+            if t.kind == "punct" and t.text == "|" and prev is not None and prev.kind == "punct" and prev.text in "(,={;":
+                # closure start; find closing '|'
+                q = p + 1
+                while not (toks[sig[q]].kind == "punct" and toks[sig[q]].text == "|"):
+                    q += 1
+                params = body[toks[sig[p]].start:toks[sig[q]].end]
+                # closure body: expression up to the matching ')' or ',' at depth 0
+                b0 = q + 1
+                depth = 0
+                e = b0
+                while e < n:
+                    tt = toks[sig[e]]
+                    if tt.kind == "punct" and tt.text in "([{":
+                        depth += 1
+                    elif tt.kind == "punct" and tt.text in ")]}":
+                        if depth == 0:
+                            break
+                        depth -= 1
+                    elif tt.kind == "punct" and tt.text == "," and depth == 0:
+                        break
+                    e += 1
+                btext = body[toks[sig[b0]].start:toks[sig[e - 1]].end]
+                ordinal += 1
+                if ordinal in c.closures:
+                    expect, lines = c.closures[ordinal]
+                    if norm(expect) != norm(params):
+                        raise ExtractError(f"{relsrc}: {key}: closure {ordinal} parameters changed (anchor lost): {params}")
+                    header = lines[0].strip()
+                    pre = " ".join(x.strip() for x in lines[1:])
+                    rep = f"{header} {{ {pre} {btext} }}"
+                    self.count("R14_closure_spec_from_sidecar")
+                else:
+                    m = re.match(r"([A-Z]\w*)::\w+", btext.strip())
+                    if not m:
+                        raise ExtractError(f"{relsrc}: {key}: closure {ordinal} `{params} {btext[:40]}` has no specification (side-car entry needed)")
+                    flat = " ".join(btext.split())
+                    rep = f"{params} -> (ret__: {m.group(1)}) ensures ret__ == {flat} {{ {btext} }}"
+                    self.count("R14_closure_ctor_ensures")
+                edits.append((toks[sig[p]].start, toks[sig[e - 1]].end, rep))
+                p = e
+                continue
+            p += 1
+        for s_, e_, rep in reversed(edits):
+            nl = body[s_:e_].count("\n") - rep.count("\n")
+            body = body[:s_] + rep + ("\n" * max(nl, 0)) + body[e_:]
         return body
 
     def insert_loop_clauses(self, body, relsrc, key, c):
@@ -865,6 +990,16 @@ REGEX_REWRITES = [
     # R9: std::cmp::min on usize -> prelude wrapper with a specification (generic Ord has no spec in vstd)
     ("R9_cmp_min", r"\bstd::cmp::min\(", "usize_min("),
     ("R9_cmp_min", r"(?<![\w:.])min\(", "usize_min("),
+    # R13a: the split iterator of v1::parse_line -> prelude wrapper `Parts` (same separator closure, anchored)
+    ("R13_splitn_peekable", r"(\w+)\s*\.splitn\(\s*(\w+)\s*,\s*\|c\|\s*c\s*==\s*SEPARATOR\s*\|\|\s*c\s*==\s*CARRIAGE_RETURN\s*\)\s*\.peekable\(\)", r"Parts::new(\1, \2)"),
+    # R14a: enum constructor used as a function value -> closure (Verus does not support constructor values)
+    ("R14_ctor_as_fn", r"\.map_err\(\s*([A-Z]\w*::[A-Z]\w*)\s*\)", r".map_err(|e__| \1(e__))"),
+    # R15: `x.iter().position(f)` -> prelude wrapper with the obvious specification
+    ("R15_iter_position", r"(\w+)\.iter\(\)\.position\(", r"slice_position(\1, "),
+    # R16: ToString on a Cow<str> field
+    ("R16_cow_to_string", r"\b(self\.header)\.to_string\(\)", r"cow_str_to_string(&\1)"),
+    # R13c: call sites of the monomorphised parse_addresses
+    ("R13_turbofish", r"parse_addresses::<(\w+),\s*_>", r"parse_addresses::<\1>"),
 ]
 
 
@@ -909,6 +1044,7 @@ def generate(repo, cdir, vacuity):
     g = Gen(repo, cdir, vacuity)
     g.emit("// GENERATED by /verif/extract/extract.py from the working tree of the repository.")
     g.emit("// Function bodies are copied from the sources; contracts come from contracts/src/*.contract.")
+    g.emit("#![feature(pattern)]")
     g.emit("#![allow(unused, dead_code, non_camel_case_types, unused_imports, unused_variables, unused_mut)]")
     g.emit("use vstd::prelude::*;")
     g.emit("verus! { global size_of usize == 8; }  // 64-bit target (usize/isize encoders, capacity arithmetic)")
